@@ -36,29 +36,45 @@ def StoredChain : Node → List Node → Prop
 def TreeInv (root : Node) : Prop :=
   ∀ x as, Anc root x as → StoredChain x as
 
-/-- the same with the Python navigation API (`parents` follows pointers through the object
-    store): `x.parents` are the holders, `x.root` is the tree root, `x.path` runs from the root
-    to `x` -/
+/-- the same with the Python navigation API (`parents` follows the stored pointers through the
+    object store): `x.parents` are exactly the holders, `x.root` is the tree root, `x.path` runs
+    from the root to `x` — for every bound on the walk that is at least the depth (the walk ends
+    because the root's pointer is None, not because the bound cuts it off) -/
 def NavInv (root : Node) : Prop :=
-  ∀ x as, Anc root x as →
-    parentsOf [root] as.length x = as ∧
-    rootOf [root] as.length x = root ∧
-    pathOf [root] as.length x = as.reverse ++ [x]
+  ∀ x as, Anc root x as → ∀ fuel, as.length ≤ fuel →
+    parentsOf [root] fuel x = as ∧
+    rootOf [root] fuel x = root ∧
+    pathOf [root] fuel x = as.reverse ++ [x]
 
-/-- Element arguments handed to a call are fresh or detached, internally well-parented subtrees
-    (an element held by two containers is aliasing no tree can represent) -/
+/-- object identities are unique: no node occurs twice in the tree (no aliasing) -/
+def UniqueIds (root : Node) : Prop := (ids root).Nodup
+
+/-- Element arguments handed to a call are internally well-parented subtrees -/
 def ArgWP : Arg → Prop
   | .plain _ => True
   | .elem e => wp e = true
 
-/-- the property for histories (stated; see Proofs/C08.lean for what is proved) -/
+/-- the Element arguments of one call of a history -/
+def OpArgsWP : Op → Prop
+  | .seq (.append a) | .seq (.insert _ a) | .seq (.setitem _ a) => ArgWP a
+  | .seq (.extend as) | .seq (.iadd as) | .seq (.setslice _ as) => ∀ a ∈ as, ArgWP a
+  | .map (.setitem _ a) => ArgWP a
+  | .map (.updateArgs kvs) => ∀ p ∈ kvs, ArgWP p.2
+  | _ => True
+
+/-- **C08 for histories** (stored-pointer clause): from any well-parented tree, after any sequence
+    of list-protocol and dict-protocol calls applied to any of its elements — with plain values or with
+    internally well-parented Element arguments — every node's stored parent chain is exactly its
+    chain of holders up to the root.
+
+    What this does not say: that identities stay unique.  The model hands an Element argument
+    over as a value, so an argument that is *already in the tree* (`l.append(l[0])`, aliasing)
+    appears twice in the model where the real object appears once with one parent pointer; such
+    histories are outside the property's quantifier ("fresh or detached arguments"), and the
+    navigation clauses `NavInv` are derived under `UniqueIds`, which is a hypothesis here, not a
+    preserved invariant. -/
 def C08_Full : Prop :=
   ∀ (s : HState) (hs : List HOp), wp s.root = true → s.root.parent = none →
-    (∀ h ∈ hs, match h.op with
-      | .seq (.append a) | .seq (.insert _ a) | .seq (.setitem _ a) => ArgWP a
-      | .seq (.extend as) | .seq (.iadd as) | .seq (.setslice _ as) => ∀ a ∈ as, ArgWP a
-      | .map (.setitem _ a) => ArgWP a
-      | _ => True) →
-    TreeInv (hrun s hs).root
+    (∀ h ∈ hs, OpArgsWP h.op) → TreeInv (hrun s hs).root
 
 end Flatland.C08.Spec
